@@ -31,6 +31,14 @@ def transport_scripts(tier):
              lambda s: [f"W {s}", f"C {s} use-db t u upw;watch $connections", f"C {s} set-safe a 0 stale;get a"],
              lambda s: [f"W {s}", f"C {s} use-db t bad;use-db t tok;use-db u tok2;"]]
     S = []
+    # however a connection ENDS — an orderly close, the socket going away, a websocket close frame with a valid, a reserved or an invalid
+    # status code, a frame that is no text followed by the socket going away — the session is released exactly once
+    ends = ["X 2", "XA 2", "XC 2 1001", "XC 2 3000", "XC 2 999", "XC 2 1005", "XC 2 0"]
+    for kind in ("W", "T"):
+        for e in ends:
+            if kind == "T" and e.startswith("XC"): continue
+            for pre in ([], ["C 2 \\xff\\xfe\\xfd"], ["C 2 watch $connections"]):
+                S.append(list(setup) + [f"{kind} 2", "C 2 use-db t tok"] + pre + ["C 1 get $connections", e, "C 1 get $connections", "DUMP", "W 3", "C 3 use-db t tok", "C 1 get $connections", "X 3", "C 1 get $connections", "DUMP"])
     for i, ka in enumerate(kinds):
         for j, kb in enumerate(kinds):
             if tier == "quick" and (i * len(kinds) + j) % 3: continue
@@ -45,7 +53,7 @@ class C17(Spec):
     lean_module = "NunVerif.Props.C17Close"
     theorems = ["Nun.C17_counter_equals_bound_sessions", "Nun.C17_usedb_keeps_invariant", "Nun.C17_disconnect_keeps_invariant", "Nun.applyChange_frame", "Nun.connInv_start",
                 "Nun.C17_failed_usedb_noop", "Nun.setValue_conns", "Nun.C17_left_unbound_noop", "Nun.C17_close_removes_session",
-                "Nun.C17_tcp_disconnect_releases_unconditionally", "Nun.C17_ws_disconnect_releases_unconditionally", "Nun.C17_tcp_leave_handling_before_release"]
+                "Nun.C17_tcp_disconnect_releases_unconditionally", "Nun.C17_ws_disconnect_releases_unconditionally", "Nun.C17_tcp_leave_handling_before_release", "Nun.C17_ws_release_is_reached_from_on_close_and_from_drop"]
     rule = ("all sequences of length L over {use-db a, use-db b, wrong token, user token, unknown db, disconnect (tcp/ws sequence), one-shot HTTP requests} x 3 sessions x 2 databases, "
             "with a watcher of $connections (also behind a subscription that outlived its session); plus seeded random longer sequences. After every step the reference session table is compared with the counter, the $connections value and the watcher's notifications. "
             "non-trivial = some session binds and some session leaves; distinct by trace hash")
